@@ -714,12 +714,15 @@ def strtok_rule(ctx: Ctx) -> None:
             return facts
 
         for loop in [n for n in walk_no_nested(fn_node) if isinstance(n, ast.For)]:
-            it = ast.unparse(loop.iter)
-            if it not in (f"{s0}.text", f"{s0}.data") or not (isinstance(loop.target, ast.Tuple) and len(loop.target.elts) == 3
-                                                              and isinstance(loop.target.elts[2], ast.Name)):
+            itn, tgt = loop.iter, loop.target
+            if isinstance(itn, ast.Call) and isinstance(itn.func, ast.Name) and itn.func.id == "enumerate" and 1 <= len(itn.args) <= 2 \
+                    and isinstance(tgt, ast.Tuple) and len(tgt.elts) == 2:
+                itn, tgt = itn.args[0], tgt.elts[1]  # for i, (n, l, p) in enumerate(self.text)
+            it = ast.unparse(itn)
+            if it not in (f"{s0}.text", f"{s0}.data") or not (isinstance(tgt, ast.Tuple) and len(tgt.elts) == 3 and isinstance(tgt.elts[2], ast.Name)):
                 continue
             n_loops += 1
-            block(loop.body, set(), loop.target.elts[2].id)
+            block(loop.body, set(), tgt.elts[2].id)
 
     after = ("_write_data", "_process_pseudo_instructions", "_process_labels", "_write_instructions")
     for name in after:
